@@ -34,9 +34,6 @@ end
 def secsStr (ss : List ASection) : String :=
   "".intercalate (ss.map fun s => "S(" ++ esc s.name ++ "){" ++ itemsStr s.items ++ "}")
 
-def bitClass (bm : Nat) (c : Char) : Bool := c.toNat < 128 && bm.testBit c.toNat
-
-def classesOfTable (a b c d : Nat) : Classes := ⟨bitClass a, bitClass b, bitClass c, bitClass d⟩
 
 def decodeText (hex : String) : Option (List Char) := do
   let bs ← hexToBytes? hex
@@ -158,11 +155,13 @@ def merrStr : MErr → String
 
 /-- scalar leaves equal to the Go zero value of a *string-typed* field are printed by neither side;
 the harness omits zero values, the model omits a scalar whose canonical text is a zero text. -/
+def pathStr (p : Path) : String := ".".intercalate (p.map String.ofList)
+
 def storeStr (zeros : List (List Char)) (st : Store) : String :=
   let entries := st.filterMap fun e =>
     match e.2 with
-    | .scalar k c => if zeros[k]? = some c ∧ ¬ (String.ofList e.1).endsWith "#name" then none else some (String.ofList e.1 ++ "=s:" ++ esc c)
-    | l => (leafStr zeros l).map (String.ofList e.1 ++ "=" ++ ·)
+    | .scalar k c => if zeros[k]? = some c ∧ e.1.getLast? ≠ some "#name".toList then none else some (pathStr e.1 ++ "=s:" ++ esc c)
+    | l => (leafStr zeros l).map (pathStr e.1 ++ "=" ++ ·)
   ";".intercalate (sortStrings entries)
 
 def smapStr (m : SMap) : String :=
@@ -203,7 +202,9 @@ def handle (st : St) (line : String) : St × String :=
   match words line with
   | ["classes", a, b, c, d] =>
     match hexToNat? a, hexToNat? b, hexToNat? c, hexToNat? d with
-    | some a, some b, some c, some d => ({ st with K := classesOfTable a b c d }, "classes ok")
+    | some a, some b, some c, some d =>
+      let K := Classes.ofTable a b c d
+      ({ st with K := K }, if K.wfCheck then "classes ok" else "classes NOT-WF (the probed lexer table violates Classes.WF)")
     | _, _, _, _ => (st, "bad-op")
   | ["p", hex] =>
     match decodeText hex with
@@ -244,9 +245,9 @@ def handle (st : St) (line : String) : St × String :=
     match unhex entry, runP p rest with
     | some entry, some (files, globs) =>
       match merge st.K (fsOf files globs) (files.length + 2) entry with
-      | .error e => (st, "err:" ++ merrStr e)
-      | .ok (m, visited) =>
-        (st, "ok " ++ smapStr m ++ " entries=" ++ ",".intercalate (sortStrings (visited.map esc)))
+      | (_, .error e) => (st, "err:" ++ merrStr e)
+      | (ms, .ok m) =>
+        (st, "ok " ++ smapStr m ++ " entries=" ++ ",".intercalate (sortStrings (ms.visited.map esc)))
     | _, _ => (st, "bad-op")
   | ["z", which, maxLen, text] =>
     match maxLen.toNat?, unhex text with
